@@ -42,7 +42,9 @@ RULE = ('one PRNG; a case is a random mesh (ring / 2xk or 3xk grid / random conn
         'requests are written in SHUFFLED order in the service document with indices >= 10 / strides (the loader must '
         'order them numerically); 30 % of the batches go through the whole planning() (reverse routes of the product); '
         '12 % of the meshes have a PARALLEL link; bidirectional requests also on meshes with a one-way link (no reverse '
-        'route is demanded where the route crosses it).  Non-trivial = some request has a non-empty include list and at least two '
+        'route is demanded where the route crosses it); ~7 % of the cases are ONE synchronisation vector of 2-3 requests with '
+        'per-request STRICT / LOOSE include lists (competing for the same element, first LOOSE later STRICT, ...): the '
+        'routes returned inside a vector must be real routes crossing their STRICT includes.  Non-trivial = some request has a non-empty include list and at least two '
         'simple paths between its end points, or is blocked; ispart cases are always non-trivial.  Include lists '
         'never repeat a node (the code accepts [X, X], a subsequence reading does not: the property is silent).')
 MODEL_SCOPE = ('modelled: correct_json_route_list, compute_constrained_path decision logic, explicit_path (repaired: '
@@ -280,6 +282,15 @@ def gen(rng, tier, widen=False):
         else:
             a = [rng.randrange(9) for _ in range(k)]
         return {'kind': 'ispart', 'a': a, 'b': b}
+    if rng.random() < (0.15 if widen else 0.07):
+        # routes returned for the requests of a synchronisation vector (the part of C11 that holds inside a disjunction
+        # group: real loop-free route between the end points, STRICT includes crossed in order); generators shared with C12
+        from props import c12
+        case = c12.gen_compete(rng, tier) if rng.random() < 0.6 else c12.gen_strict_loose(rng, tier)
+        case['kind'] = 'vector'
+        if rng.random() < 0.15:
+            case['via'] = 'planning'
+        return case
     mesh, oneway = gen_mesh(rng, tier, widen)
     via = 'planning' if (rng.random() < 0.3 and not oneway) else 'dsjctn'
     if tier == 'thorough' and rng.random() < 0.04 and mesh['n'] <= 7:
@@ -347,7 +358,81 @@ def add_twins(rng, mesh, reqs, oneway, via):
 def run(case, drv):
     if case['kind'] == 'ispart':
         return run_ispart(case, drv)
+    if case['kind'] == 'vector':
+        return run_vector(case, drv)
     return run_route(case, drv)
+
+
+def run_vector(case, drv):
+    """requests of one synchronisation vector: every route that is RETURNED starts at the source, ends at the destination,
+    follows existing links, visits nothing twice and crosses the request's include list in order when the list holds a
+    STRICT hop (minimal length is not demanded inside a disjunction group; whether the computation may stop with a
+    DisjunctionError instead is property C12)"""
+    from gnpy.tools.json_io import requests_from_json, disjunctions_from_json
+    from gnpy.topology.request import (correct_json_route_list, deduplicate_disjunctions, requests_aggregation,
+                                       compute_path_dsjctn)
+    from gnpy.core.exceptions import DisjunctionError
+    res = Result()
+    via = case.get('via', 'dsjctn')
+    net = routing.get_net(case['mesh']) if via != 'planning' else routing.Net(case['mesh'])
+    reqs = []
+    for r in case['reqs']:
+        rr = resolve_request(net, r)
+        rr['inc'] = [[u, h] for u, h in rr['inc'] if u in net.idx]
+        rr['mode'] = r.get('mode', 'mode 1')
+        reqs.append(rr)
+    sync = [[str(x) for x in g] for g in case['sync']]
+    data = meshes.service_json(reqs, sync)
+    results, raised = {}, None
+    try:
+        if via == 'planning':
+            from gnpy.tools.worker_utils import planning
+            _, pths, _, rqs, _, _ = planning(net.net, net.eq, data)
+        else:
+            rqs = correct_json_route_list(net.net, requests_from_json(data, net.eq))
+            dsjn = deduplicate_disjunctions(disjunctions_from_json(data))
+            rqs, dsjn = requests_aggregation(rqs, dsjn)
+            pths = compute_path_dsjctn(net.net, net.eq, rqs, dsjn)
+        for rq, p in zip(rqs, pths):
+            for rid in rq.request_id.split(' | '):
+                results[rid] = ([e.uid for e in p], getattr(rq, 'blocking_reason', None))
+    except DisjunctionError:
+        raised = 'DisjunctionError'
+    except Exception as e:
+        raised = err_kind(e)
+        res.fail(f'vector: path computation raised {raised}: {str(e)[:120]}')
+    res.stats[f'vector_outcome_{raised or "paths"}'] += 1
+    gargs, oargs = net.graph_args(), net.oms_args()
+    for rr in reqs:
+        if rr['id'] not in results:
+            continue
+        path, reason = results[rr['id']]
+        inc = [u for u, _ in rr['inc']]
+        hops = [h for _, h in rr['inc']]
+        tag = f'request {rr["id"]} {rr["src"]}->{rr["dst"]} include {rr["inc"]} in vector {sync}'
+        if not path:
+            if reason not in NOPATH:
+                res.fail(f'vector: empty route without a no-path reason ({reason}) for {tag}')
+            continue
+        if path[0] != rr['src'] or path[-1] != rr['dst']:
+            res.fail(f'end points: route runs {path[0]} -> {path[-1]} for {tag}')
+        if not net.is_walk(path):
+            res.fail(f'not a walk: route uses a non-existing link for {tag}')
+        if len(set(path)) != len(path):
+            res.fail(f'loop: route visits an element twice for {tag}')
+        if S in hops and not routing.crosses_in_order(inc, path):
+            res.fail(f'strict include not honoured: the route returned inside the vector does not cross {inc} in order '
+                     f'({tag})')
+        # the verified checker on the same route
+        ans = drv.ask('c11.route', s=net.idx[rr['src']], t=net.idx[rr['dst']], inc=net.ids(inc), strict=(S in hops),
+                      sR=None, dR=None, path=net.ids(path), **gargs, **oargs)
+        res.cmp_exact('checkRoute(route inside a vector)', True, ans['check_inc'] if S in hops else ans['check_plain'],
+                      request=rr['id'])
+        res.stats['vector_routes_checked'] += 1
+        res.stats['vector_loose_dropped'] += int(bool(inc) and S not in hops and not routing.crosses_in_order(inc, path))
+    res.nontrivial = any(r['inc'] for r in reqs)
+    res.stats['vector_cases'] += 1
+    return res
 
 
 def run_ispart(case, drv):
@@ -729,6 +814,11 @@ def exhaustive():
 # --------------------------------------------------------------------------------------------------------------------
 
 def shrink_candidates(case):
+    if case['kind'] == 'vector':
+        from props import c12
+        for c in c12.shrink_candidates(case):
+            yield c
+        return
     if case['kind'] != 'route':
         for k in ('a', 'b'):
             for i in range(len(case[k])):
